@@ -22,8 +22,16 @@ Contract of an **encoder**.
 that the caller has already asked for `FLUSH_FULL` with all its input taken — from then on it has to keep
 asking for `FLUSH_FULL` without new input until `END` (`Proto`; zlib & co. answer anything else with a
 sequence error).  `pend s` bounds the number of further calls that take nothing in.
+
+`Proto` also says `fl ≠ Flush.sync`: the contracts speak about the two flush modes the wrappers pass (`ostream.c`:
+`FLUSH_NONE` / `FLUSH_FULL`, `istream.c`: the same two).  `XFRM_STREAM_FLUSH_SYNC` is mapped by the backends to
+`Z_SYNC_FLUSH` / `LZMA_FULL_FLUSH` / `BZ_FLUSH` / `ZSTD_e_flush`, which the real libraries answer in ways no clause below
+allows (liblzma's encoder answers `LZMA_STREAM_END` to a completed `LZMA_FULL_FLUSH` without ending the stream, its decoder
+answers `LZMA_PROG_ERROR`; libbz2 answers `BZ_SEQUENCE_ERROR` to a `BZ_RUN` that follows an unfinished `BZ_FLUSH`): with the
+clauses quantified over all three modes `False` was derivable from the library contracts plus any one of these facts
+(review E, F2), i.e. the `backend_*` theorems were vacuous for liblzma/libbz2.  Nothing is claimed about `FLUSH_SYNC`.
 -/
-def Proto (fin : Bool) (fl : Flush) (inp : Bytes) : Prop := fin = true → fl = Flush.full ∧ inp = []
+def Proto (fin : Bool) (fl : Flush) (inp : Bytes) : Prop := fl ≠ Flush.sync ∧ (fin = true → fl = Flush.full ∧ inp = [])
 
 structure EncContract {σ : Type} (C : Codec σ) (Dec : Bytes → Option Bytes) where
   R : σ → Bytes → Bytes → Bool → Prop
@@ -70,7 +78,7 @@ structure DecContract {σ : Type} (C : Codec σ) (Dec : Bytes → Option Bytes) 
   no error, nothing is consumed beyond the member, what is handed out continues the member's content, `END`
   exactly when the member is complete *and* completely handed out, `BUFFER_FULL` only together with output.
   -/
-  valid : ∀ {s u v} (w x tail inp : Bytes) (room : Nat) (fl : Flush), R s u v → Dec (u ++ w) = some x →
+  valid : ∀ {s u v} (w x tail inp : Bytes) (room : Nat) (fl : Flush), fl ≠ Flush.sync → R s u v → Dec (u ++ w) = some x →
     IsPre inp (w ++ tail) → (fl = Flush.full → w.length ≤ inp.length) →
     (C.step s inp room fl).res ≠ Res.error ∧
     (C.step s inp room fl).consumed ≤ inp.length ∧ (C.step s inp room fl).consumed ≤ w.length ∧
@@ -82,7 +90,7 @@ structure DecContract {σ : Type} (C : Codec σ) (Dec : Bytes → Option Bytes) 
     ((C.step s inp room fl).res = Res.bufferFull → (C.step s inp room fl).out ≠ [])
   /-- progress with input: something is consumed, or the codec comes closer to having handed out everything
       (also when the call ends the member) -/
-  progress : ∀ {s u v} (w x tail inp : Bytes) (room : Nat) (fl : Flush), R s u v → Dec (u ++ w) = some x →
+  progress : ∀ {s u v} (w x tail inp : Bytes) (room : Nat) (fl : Flush), fl ≠ Flush.sync → R s u v → Dec (u ++ w) = some x →
     IsPre inp (w ++ tail) → (fl = Flush.full → w.length ≤ inp.length) → 0 < room → inp ≠ [] →
     0 < (C.step s inp room fl).consumed ∨ pend (C.step s inp room fl).st < pend s
   /-- at the end of the input, with the member completely consumed: hand out what is left, or end the member -/
@@ -149,7 +157,7 @@ structure LibDecContract {τ : Type} (L : Lib τ) (b : Backend) (Dec : Bytes →
   total : ∀ {s u v}, R s u v → (L.totalIn s = 0 ↔ u = [])
   /-- inside a valid member, offered a prefix of what follows: `OK`, `STREAM_END` or (zlib, liblzma) `BUF_ERROR`;
       nothing beyond the member is consumed; the output continues the content; `STREAM_END` exactly at the end -/
-  valid : ∀ {s u v} (w x tail inp : Bytes) (room : Nat) (fl : Flush), R s u v → Dec (u ++ w) = some x →
+  valid : ∀ {s u v} (w x tail inp : Bytes) (room : Nat) (fl : Flush), fl ≠ Flush.sync → R s u v → Dec (u ++ w) = some x →
     IsPre inp (w ++ tail) → 0 < room →
     ((L.call s inp room fl).ret = LibRet.ok ∨ (L.call s inp room fl).ret = LibRet.streamEnd ∨
       ((L.call s inp room fl).ret = LibRet.bufError ∧ b ≠ Backend.bzip2)) ∧
@@ -160,25 +168,25 @@ structure LibDecContract {τ : Type} (L : Lib τ) (b : Backend) (Dec : Bytes →
     ((L.call s inp room fl).ret ≠ LibRet.streamEnd →
       R (L.call s inp room fl).st (u ++ inp.take (L.call s inp room fl).consumed) (v ++ (L.call s inp room fl).out))
   /-- a call with input that answers `OK` has consumed or produced something -/
-  bytes : ∀ {s u v} (w x tail inp : Bytes) (room : Nat) (fl : Flush), R s u v → Dec (u ++ w) = some x →
+  bytes : ∀ {s u v} (w x tail inp : Bytes) (room : Nat) (fl : Flush), fl ≠ Flush.sync → R s u v → Dec (u ++ w) = some x →
     IsPre inp (w ++ tail) → 0 < room → inp ≠ [] → (L.call s inp room fl).ret = LibRet.ok →
     0 < (L.call s inp room fl).consumed + (L.call s inp room fl).out.length
-  progress : ∀ {s u v} (w x tail inp : Bytes) (room : Nat) (fl : Flush), R s u v → Dec (u ++ w) = some x →
+  progress : ∀ {s u v} (w x tail inp : Bytes) (room : Nat) (fl : Flush), fl ≠ Flush.sync → R s u v → Dec (u ++ w) = some x →
     IsPre inp (w ++ tail) → 0 < room → inp ≠ [] →
     0 < (L.call s inp room fl).consumed ∨
     pend (if (L.call s inp room fl).ret = LibRet.streamEnd then L.reset (L.call s inp room fl).st else (L.call s inp room fl).st) < pend s
   /-- `BUF_ERROR` without output means: all offered input has been consumed and more is needed (zlib answers it to `Z_FINISH`
       whenever the member is not complete; otherwise only when no progress was possible) -/
-  buf_quiet : ∀ {s u v} (w x tail inp : Bytes) (room : Nat) (fl : Flush), R s u v → Dec (u ++ w) = some x →
+  buf_quiet : ∀ {s u v} (w x tail inp : Bytes) (room : Nat) (fl : Flush), fl ≠ Flush.sync → R s u v → Dec (u ++ w) = some x →
     IsPre inp (w ++ tail) → 0 < room → (L.call s inp room fl).ret = LibRet.bufError → (L.call s inp room fl).out = [] →
     (L.call s inp room fl).consumed = inp.length ∧ (fl = Flush.full ∨ inp = [])
   /-- output is produced as the input is consumed: a call after which the member is completely consumed hands something
       out or ends the member -/
-  drain : ∀ {s u v} (w x tail inp : Bytes) (room : Nat) (fl : Flush), R s u v → Dec (u ++ w) = some x →
+  drain : ∀ {s u v} (w x tail inp : Bytes) (room : Nat) (fl : Flush), fl ≠ Flush.sync → R s u v → Dec (u ++ w) = some x →
     IsPre inp (w ++ tail) → 0 < room → (L.call s inp room fl).consumed = w.length →
     (L.call s inp room fl).out ≠ [] ∨ (L.call s inp room fl).ret = LibRet.streamEnd
   /-- between two members, without input: nothing happens -/
-  idle : ∀ {s} (room : Nat) (fl : Flush), R s [] [] → 0 < room →
+  idle : ∀ {s} (room : Nat) (fl : Flush), fl ≠ Flush.sync → R s [] [] → 0 < room →
     ((L.call s [] room fl).ret = LibRet.ok ∨ ((L.call s [] room fl).ret = LibRet.bufError ∧ b ≠ Backend.bzip2)) ∧
     (L.call s [] room fl).out = [] ∧ (L.call s [] room fl).consumed = 0 ∧ R (L.call s [] room fl).st [] []
 
